@@ -300,6 +300,8 @@ def evolve_future(I, f):
     promise = f.ghost.get("promise")
     if promise is not None and promise.get("no_cancel"):
         ctx.assume(z3.Implies(old == 0, new != 3))
+    if promise is not None and promise.get("excs") == []:
+        ctx.assume(z3.Implies(old == 0, new != 2))  # nobody completes such a future with an exception
     f.state = new
     if promise is not None and promise.get("result") is not None:
         res = promise["result"]
